@@ -762,6 +762,218 @@ def run_lifetime_part(ctx, part):
     ctx.add_note("A2_of_those_with_the_address_of_a_dropped_driver_reused", nre)
 
 
+# -------------------------------------------------------------------------------------------------
+# part A3 : how the caller passes arguments (every job entry point x every call convention)
+# -------------------------------------------------------------------------------------------------
+class Val:
+    """A caller argument: recognisable, and with a .name like an item, so that a prep which receives it in
+    the item slot does not crash but shows it."""
+
+    def __init__(self, name):
+        self.name = name
+
+
+ARG_SLOTS = ("a", "b", "c")
+ARG_DEFAULT = {"a": "da", "b": "db", "c": "dc"}
+ARG_VALUE = {"a": "VA", "b": "VB", "c": "VC"}
+
+
+def slot(x):
+    return f"{type(x).__name__}:{getattr(x, 'name', x)}"
+
+
+def call_conventions():
+    """Every way of passing a subset of (a, b, c): a positional prefix, the rest by keyword
+    (0..3 caller arguments; all-positional, all-keyword, mixed, defaults omitted)."""
+    out = []
+    for mask in range(8):
+        chosen = [sl for i, sl in enumerate(ARG_SLOTS) if mask >> i & 1]
+        maxp = 0
+        while maxp < 3 and ARG_SLOTS[maxp] in chosen:
+            maxp += 1
+        for npos in range(maxp + 1):
+            pos = list(ARG_SLOTS[:npos])
+            kw = [sl for sl in chosen if sl not in pos]
+            cls = "no-arguments" if not chosen else "positional" if not kw else "keyword" if not pos else "mixed"
+            out.append({"pos": pos, "kw": kw, "class": cls})
+    return out
+
+
+def make_call_class():
+    def prep(self, M, a="da", b="db", c="dc"):
+        text = f"M={slot(M)},a={slot(a)},b={slot(b)},c={slot(c)}"
+        return JobInput(
+            str(getattr(M, "name", M)),
+            commands=[(shlex.join([self.executable, "-c", f"printf %s {text} > res.txt"]), "main")],
+            return_files=self.return_files,
+            envars=self.envars,
+        )
+
+    def post(self, out, M, a="da", b="db", c="dc"):
+        return f"out[{bytes(out.files['res.txt']).decode()}]|M={slot(M)},a={slot(a)},b={slot(b)},c={slot(c)}".encode()
+
+    def reduce(self, results, inp, a="da", b="db", c="dc"):
+        return b"R{" + b";".join(results) + b"}" + f"|a={slot(a)},b={slot(b)},c={slot(c)}".encode()
+
+    cc = Job(name="cc", return_files=("res.txt",)).prep(prep)
+    cc.post(post)
+    cc_ens = Job.vectorize(cc, name="cc_ens")
+    cc_ens.reduce(reduce)
+    cc_ens.name = "cc_ens"
+    return type("CallDriver", (DriverBase,), {"default_executable": "sh", "cc": cc, "cc_ens": cc_ens})
+
+
+def expected_slots(conv, item_slot):
+    v = {sl: "str:" + ARG_DEFAULT[sl] for sl in ARG_SLOTS}
+    for sl in conv["pos"] + conv["kw"]:
+        v[sl] = "Val:" + ARG_VALUE[sl]
+    return f"M={item_slot},a={v['a']},b={v['b']},c={v['c']}"
+
+
+CALL_ENTRIES = ("single.prepare", "single.process", "vector.prepare", "vector.process", "jobmap.single", "jobmap.vector")
+
+
+def call_exec(ctx, entry, conv):
+    """One entry point x one convention on the real code.  Returns (observed strings, expected strings, exception name)."""
+    cls = make_call_class()
+    d = cls("sh", nprocs=1)
+    vals = {sl: Val(ARG_VALUE[sl]) for sl in ARG_SLOTS}
+    args = tuple(vals[sl] for sl in conv["pos"])
+    kwargs = {sl: vals[sl] for sl in conv["kw"]}
+    tail = expected_slots(conv, "X")[len("M=X") :]  # ",a=..,b=..,c=.."
+    try:
+        if entry == "single.prepare":
+            ji = d.cc.prepare(Item("i0"), *args, **kwargs)
+            got = [shlex.split(ji.commands[0][0])[2]]
+            exp = ["printf %s " + expected_slots(conv, "Item:i0") + " > res.txt"]
+        elif entry == "vector.prepare":
+            jis = list(d.cc_ens.prepare([Item("i0"), Item("i1")], *args, **kwargs))
+            got = [shlex.split(ji.commands[0][0])[2] for ji in jis]
+            exp = ["printf %s " + expected_slots(conv, f"Item:i{n}") + " > res.txt" for n in (0, 1)]
+        elif entry == "single.process":
+            r = d.cc.process(JobOutput(files={"res.txt": b"x0"}), Item("i0"), *args, **kwargs)
+            got = [bytes(r).decode()]
+            exp = ["out[x0]|" + expected_slots(conv, "Item:i0")]
+        elif entry == "vector.process":
+            outs = [JobOutput(files={"res.txt": b"x0"}), JobOutput(files={"res.txt": b"x1"})]
+            r = d.cc_ens.process(outs, [Item("i0"), Item("i1")], *args, **kwargs)
+            got = [bytes(r).decode()]
+            exp = ["R{" + ";".join(f"out[x{n}]|" + expected_slots(conv, f"Item:i{n}") for n in (0, 1)) + "}|" + tail[1:]]
+        else:
+            got, exp = _call_jobmap(ctx, d, entry, args, kwargs, conv)
+    except Exception as e:
+        return None, None, type(e).__name__
+    return got, exp, None
+
+
+def _call_jobmap(ctx, d, entry, args, kwargs, conv):
+    import contextlib as _cl
+    import io as _io
+    import numpy as np
+    import molli as ml
+    from molli.pipeline.job import jobmap
+    from molli.storage import Collection, UkvCollectionBackend
+    from mc.props import c18 as h  # in-process runner seam and handle hygiene of the C18 check
+
+    w = _fresh(Path(ctx.scratch) / "callconv")
+    vector = entry.endswith("vector")
+    src_path = w / ("src.clib" if vector else "src.mlib")
+    lib = (ml.ConformerLibrary if vector else ml.MoleculeLibrary)(src_path, readonly=False)
+    with lib.writing():
+        mol = ml.Molecule(name="k0")
+        mol.add_atom(ml.Atom("C"), [0.0, 0.0, 0.0])
+        if vector:
+            ens = ml.ConformerEnsemble(mol, n_conformers=2, name="k0")
+            ens.coords = np.zeros((2, 1, 3))
+            lib["k0"] = ens
+        else:
+            lib["k0"] = mol
+    h._forget(lib)
+    source = (ml.ConformerLibrary if vector else ml.MoleculeLibrary)(src_path, readonly=True)
+    dest = Collection(w / "dest.ukv", UkvCollectionBackend, readonly=False)
+    old = (_jobmod._run_local, sys.stdin)
+    _jobmod._run_local = h._run_local_inproc
+    sys.stdin = _NoClose()
+    sink = _io.StringIO()
+    cwd0 = os.getcwd()
+    try:
+        with _cl.redirect_stderr(sink), _cl.redirect_stdout(sink):
+            jobmap(d.cc_ens if vector else d.cc, source, dest, cache_dir=w / "cache", scratch_dir=w / "scratch", n_workers=1, args=args, kwargs=kwargs)
+    finally:
+        _jobmod._run_local, sys.stdin = old
+        os.chdir(cwd0)
+        h._close_logging()
+        h._release(source)
+        h._release(dest)
+    rd = Collection(w / "dest.ukv", UkvCollectionBackend, readonly=True)
+    try:
+        with rd.reading(timeout=30):
+            got = [bytes(rd[k]).decode() for k in sorted(rd.keys())]
+    finally:
+        h._forget(rd)
+    tail = expected_slots(conv, "X")[len("M=X") :]
+    if vector:
+        one = lambda: "out[" + expected_slots(conv, "Conformer:k0") + "]|" + expected_slots(conv, "Conformer:k0")
+        exp = ["R{" + ";".join(one() for _ in (0, 1)) + "}|" + tail[1:]]
+    else:
+        exp = ["out[" + expected_slots(conv, "Molecule:k0") + "]|" + expected_slots(conv, "Molecule:k0")]
+    return got, exp
+
+
+def call_check(ctx, entry, conv, got, exp, exc):
+    case = {"part": "A3", "entry": entry, "conv": conv}
+    if exc is not None:
+        ctx.violation(f"call:{entry}:{conv['class']}:raised-{exc}", f"{entry} with positional {conv['pos']} / keyword {conv['kw']} caller arguments raised {exc}", case, repro=CALL_REPRO)
+        return False
+    if got == exp:
+        return True
+    import re
+
+    items = lambda ss: [re.findall(r"M=([^,|\]]+)", x) for x in ss]
+    sym = "item-not-in-the-item-slot" if items(got) != items(exp) else "argument-in-the-wrong-slot"
+    ctx.violation(f"call:{entry}:{conv['class']}:{sym}", f"{entry} with positional {conv['pos']} / keyword {conv['kw']}: observed {got!r}, a direct call prepare/post(job, item, ...) gives {exp!r}", case, repro=CALL_REPRO)
+    return False
+
+
+CALL_REPRO = """\
+from molli.pipeline.driver import DriverBase
+from molli.pipeline.job import Job, JobInput
+class D(DriverBase):
+    default_executable = "sh"
+    @Job(return_files=()).prep
+    def one(self, M, a="da", b="db"):
+        return JobInput(str(M), commands=[(f"echo item={M} a={a} b={b}", None)], return_files=self.return_files)
+    many = Job.vectorize(one)
+d = D()
+print([ji.commands for ji in d.many.prepare(["i0", "i1"], "VA", b="VB")])   # expected item=i0 a=VA b=VB / item=i1 a=VA b=VB
+"""
+
+
+def run_call_part(ctx, part):
+    _, entries = part
+    n = 0
+    for entry in entries:
+        for conv in call_conventions():
+            got, exp, exc = call_exec(ctx, entry, conv)
+            ok = call_check(ctx, entry, conv, got, exp, exc)
+            n += 1
+            ctx.count(evaluations=1, traces=1, states=1, transitions=1)
+            if ok:
+                if conv["pos"] or conv["kw"]:
+                    ctx.nontrivial(("A3", entry, tuple(conv["pos"]), tuple(conv["kw"])))
+                ctx.outcome(("A3", hashlib.sha1(repr(got).encode()).hexdigest()[:12]))
+                if entry == "vector.prepare" and conv["pos"] == ["a"] and conv["kw"] == ["c"]:
+                    ctx.sample({"part": "A3", "entry": entry, "conv": conv, "observed": got})
+    ctx.add_note("A3_calls", n)
+
+
+def call_parts(ctx, seed):
+    ents = list(CALL_ENTRIES)
+    ents = ents[seed % len(ents) :] + ents[: seed % len(ents)]
+    ctx.bound["A3"] = {"entries": list(CALL_ENTRIES), "conventions": len(call_conventions()), "excluded": "Job.__call__ (raises NameError on the unchanged code: _runner_local is not defined in molli/pipeline/job.py)"}
+    return [("A3", [e for e in ents if not e.startswith("jobmap")]), ("A3", [e for e in ents if e.startswith("jobmap")])]
+
+
 # =================================================================================================
 # part B : execution
 # =================================================================================================
@@ -1328,6 +1540,8 @@ def run_part(sub, part):
         return run_binding_part(sub, part)
     if part[0] == "A2":
         return run_lifetime_part(sub, part)
+    if part[0] == "A3":
+        return run_call_part(sub, part)
     return run_cases(sub, part)
 
 
@@ -1410,11 +1624,15 @@ def run(ctx):
     ]
     parts = execution_parts(ctx, seed)
     nscript = sum(1 for p in parts if p[0] == "script")
-    parts = parts[:nscript] + binding_parts(ctx, seed) + lifetime_parts(ctx, seed) + parts[nscript:]
+    parts = parts[:nscript] + binding_parts(ctx, seed) + lifetime_parts(ctx, seed) + call_parts(ctx, seed) + parts[nscript:]
     ctx.pmap(run_part, parts, nproc=16 if ctx.thorough else 8)
 
 
 def replay(ctx, case):
+    if case.get("part") == "A3":
+        got, exp, exc = call_exec(ctx, case["entry"], case["conv"])
+        call_check(ctx, case["entry"], case["conv"], got, exp, exc)
+        return
     if case.get("part") in ("A", "A2"):
         hist = tuple(tuple(x) for x in case["history"])
         flavour = case.get("flavour", "plain")
